@@ -22,7 +22,17 @@ func c19Value(r *rand.Rand, idx int) any {
 		}
 		return later[r.Intn(len(later))]
 	}
-	switch r.Intn(10) {
+	switch r.Intn(14) {
+	case 10: // a longer look-alike key (or a default form) of the same key first, then the plain mention
+		k := pick()
+		return []string{"${" + k + "2},${" + k + "}", "${" + k + ":d},${" + k + "}", "${" + k + ".x}${" + k + "}", "${" + k + "}${" + k + "2}"}[r.Intn(4)]
+	case 11: // adjacent placeholders, the first one unknown
+		return "${" + []string{"zz", "nope.x"}[r.Intn(2)] + "}${" + pick() + "}"
+	case 12: // three mentions with text in between, the same key first and last
+		k := pick()
+		return "${" + k + "} ${" + pick() + "} ${" + k + "}"
+	case 13: // placeholder-like noise
+		return []string{"$", "${", "${}", "}${", "$${" + pick() + "}", "${" + pick() + "}}"}[r.Intn(6)]
 	case 0:
 		return r.Intn(5)
 	case 1:
@@ -256,7 +266,7 @@ func c19Impact(r *rand.Rand) Case {
 func init() {
 	register(&Prop{
 		ID:   "C19",
-		Rule: "overlays of 1-3 layers over a pool of 5 leaf keys (a, b, c.d, e, f.g); string values are templates mentioning later pool keys (acyclic), unknown keys, defaults, repeated mentions, unterminated placeholders, defaults containing placeholders; plus ints/bools/plain strings. kinds: dependency (source + 0-2 reference overlays; 20 repeated runs must give equal reports; AllKeys = OrphanKeys ⊎ keys(Map)), placeholder (key filters: all / prefix c / not a; 20 repeated runs), impact (requested key subsets incl. an unknown key). Sorted fields compared exactly, coordinate lists as multisets. Non-trivial: some value mentions >= 2 keys. Distinct by Gallina term.",
+		Rule: "overlays of 1-3 layers over a pool of 5 leaf keys (a, b, c.d, e, f.g); string values are templates mentioning later pool keys (acyclic), unknown keys, defaults, repeated mentions, unterminated placeholders, defaults containing placeholders, look-alike keys and default forms before a plain mention, adjacent placeholders (unknown first), placeholder-like noise; plus ints/bools/plain strings. kinds: dependency (source + 0-2 reference overlays; 20 repeated runs must give equal reports; AllKeys = OrphanKeys ⊎ keys(Map)), placeholder (key filters: all / prefix c / not a; 20 repeated runs), impact (requested key subsets incl. an unknown key). Sorted fields compared exactly, coordinate lists as multisets. Non-trivial: some value mentions >= 2 keys. Distinct by Gallina term.",
 		Gen: func(r *rand.Rand, tier string, idx int) Case {
 			switch idx % 3 {
 			case 0:
